@@ -779,6 +779,7 @@ class OutputSchemaBuilder(
                         all_interfaces.update(flattened.interfaces)
                     elif isinstance(flattened, graphql.GraphQLInterfaceType):
                         all_interfaces.add(flattened)
+                        all_interfaces.update(flattened.interfaces)
                 return sorted(all_interfaces, key=lambda i: i.name)
 
         def factory(
